@@ -31,6 +31,8 @@ pub enum CtxKind {
     Country(String),
     Zone(String),
     Coords(f64, f64),
+    /// explicit zone + coordinates (the zone is NOT the one of the place)
+    ZoneCoords(String, f64, f64),
 }
 
 #[derive(Clone, Debug)]
@@ -61,6 +63,10 @@ pub fn gen_cases(seed: u64, n: usize, allow_tz_lazies: bool) -> Vec<Case> {
             2 => CtxKind::Synthetic(r.pick(&crate::gen::ctx::SYNTHETIC).to_string()),
             3..=5 => CtxKind::Country(Country::ALL[r.below(Country::ALL.len() as u64) as usize].iso_code().to_string()),
             6 => CtxKind::Zone(super::c09::ZONES[r.below(super::c09::ZONES.len() as u64) as usize].to_string()),
+            7 => {
+                let s = r.pick(&SITES);
+                CtxKind::ZoneCoords(super::c09::ZONES[r.below(super::c09::ZONES.len() as u64) as usize].to_string(), s.0, s.1)
+            }
             _ => {
                 if allow_tz_lazies {
                     let s = r.pick(&SITES);
@@ -70,7 +76,7 @@ pub fn gen_cases(seed: u64, n: usize, allow_tz_lazies: bool) -> Vec<Case> {
                 }
             }
         };
-        if matches!(ctx, CtxKind::Coords(..)) {
+        if matches!(ctx, CtxKind::Coords(..) | CtxKind::ZoneCoords(..)) {
             // make the answer depend on the sun events of the place
             text = format!("{text}, (sunrise-00:20)-(sunset+00:20) unknown");
         }
@@ -116,6 +122,9 @@ fn answers_zoned(oh: &OpeningHours<TzLocation<Tz>>, t: NaiveDateTime) -> String 
     let tz = oh_zone(oh);
     let i = tz.from_utc_datetime(&t);
     let state = oh.state(i.clone());
+    if LIGHT.load(Ordering::Relaxed) {
+        return format!("{tz}|{state}|{}", fmt_sched(oh.schedule_at(t.date())));
+    }
     let next = match stream::with_day_budget(3_000, || oh.next_change(i.clone())) {
         Ok(Some(x)) => format!("{x:?}"),
         Ok(None) => "budget".to_string(),
@@ -155,6 +164,12 @@ pub fn eval_case(c: &Case) -> String {
                 let tz: Tz = z.parse().unwrap();
                 ZONE_OF.with(|x| *x.borrow_mut() = Some(tz));
                 answers_zoned(&oh.with_context(Context::default().with_locale(TzLocation::new(tz))), c.t)
+            }
+            CtxKind::ZoneCoords(z, lat, lon) => {
+                let tz: Tz = z.parse().unwrap();
+                let coords = Coordinates::new(*lat, *lon).unwrap();
+                ZONE_OF.with(|x| *x.borrow_mut() = Some(tz));
+                answers_zoned(&oh.with_context(Context::default().with_locale(TzLocation::new(tz).with_coords(coords))), c.t)
             }
             CtxKind::Coords(lat, lon) => {
                 let coords = Coordinates::new(*lat, *lon).unwrap();
@@ -273,11 +288,29 @@ pub fn reference(args: &Args, rep: &mut Report, n: usize, allow_tz: bool) -> Vec
         // (empty thread-local state) evaluates it alone
         let mut r = Rng::new(args.seed, 0x1e7, c.id as u64);
         let mut histories: Vec<(String, Case)> = Vec::new();
+        // one context component changed at a time: same coordinates under another zone (always
+        // probed first: the shared component is what a too-coarse memo key would be made of)
+        let mut first: Vec<(String, Case)> = Vec::new();
+        match &c.ctx {
+            CtxKind::Coords(lat, lon) | CtxKind::ZoneCoords(_, lat, lon) => {
+                let z = match &c.ctx {
+                    CtxKind::ZoneCoords(z, ..) if z == "UTC" => "Asia/Tokyo",
+                    _ => "UTC",
+                };
+                let dt = *r.pick(&[0i64, 0, 1]);
+                first.push(("same expression at the same coordinates under another zone".into(), Case { id: c.id, text: c.text.clone(), ctx: CtxKind::ZoneCoords(z.into(), *lat, *lon), t: c.t + Duration::days(dt) }));
+            }
+            _ => {}
+        }
         for dt in [-1i64, 0, 1] {
             let other_ctx = match &c.ctx {
                 CtxKind::Coords(lat, _) => {
                     let s = SITES.iter().find(|s| s.0 != *lat).unwrap();
                     CtxKind::Coords(s.0, s.1)
+                }
+                CtxKind::ZoneCoords(z, lat, _) => {
+                    let s = SITES.iter().find(|s| s.0 != *lat).unwrap();
+                    CtxKind::ZoneCoords(z.clone(), s.0, s.1)
                 }
                 CtxKind::Country(code) => CtxKind::Country(if code == "FR" { "US".into() } else { "FR".into() }),
                 CtxKind::Zone(z) => CtxKind::Zone(if z == "Europe/Paris" { "Asia/Tokyo".into() } else { "Europe/Paris".into() }),
@@ -288,7 +321,7 @@ pub fn reference(args: &Args, rep: &mut Report, n: usize, allow_tz: bool) -> Vec
             histories.push((format!("another expression in the same context at t{dt:+}d"), Case { id: c.id, text: other.text.clone(), ctx: c.ctx.clone(), t: c.t + Duration::days(dt) }));
         }
         r.shuffle(&mut histories);
-        for (what, h) in histories.iter().take(4) {
+        for (what, h) in first.iter().chain(histories.iter()).take(4) {
             let _ = eval_case(h);
             let again = eval_case(c);
             rep.evaluations += 2;
